@@ -1,23 +1,31 @@
 //! C16 — concurrent operations on one list are linearizable w.r.t. the shared-vector
-//! model, no element is read through a pointer whose storage another thread's push
-//! relocated / freed, and no interleaving deadlocks.
+//! model, no element is read through an address obtained before another thread's push
+//! relocated / freed the storage, and no interleaving deadlocks.
 //!
 //! Family `list-sched`: a stateless-exploration controlled scheduler over the REAL
-//! `roto::List` code, driven through the `verif-hooks` list hook of roto
-//! (`roto::verif::set_list_hook`).
+//! `roto::List` code. From roto it only needs the two `verif-hooks` list events
+//! `BeforeLock` (schedule point) and `BufferReleased` (a buffer is about to be freed /
+//! moved); everything about element reads is observed from OUTSIDE roto, through the
+//! element type.
 //!
 //! How it works
 //! ------------
 //! * Worker threads T0..Tn-1 execute fixed short programs on shared lists `a` and `b`
 //!   (every thread owns clones of both handles made before the threads start).
-//! * The hook callback runs on the thread that performs the list operation. A thread
-//!   PARKS inside the callback at two kinds of points:
-//!     - `BeforeLock` (immediately before every `mutex.lock()` of a SHARED list): the
-//!       point is *enabled* iff the probe `is_free()` says the mutex is free. The probe
-//!       is only evaluated while every controlled thread is parked or finished, so the
-//!       answer cannot change before the chosen thread really locks.
-//!     - `PointerEscaped` (between the lookup of an element pointer under the lock and
-//!       its use without the lock): always enabled.
+//! * Yield points (the thread PARKS there until it is scheduled):
+//!     - `BeforeLock` — immediately before every lock acquisition of a SHARED list.
+//!       Enabled iff the real lock lets the thread in: the probe `is_free()` says so, or
+//!       — if the probe says "somebody holds it in some mode" — a trial on the real code
+//!       says that this acquisition is compatible with every holder (see "Truthful
+//!       enabledness" below; with a plain mutex that is never the case). Probes are only
+//!       evaluated while every controlled thread is parked or finished, so the answer
+//!       cannot change before the chosen thread really locks.
+//!     - element callbacks — element kind `Val` is a registered host type (`Val<Yv>`)
+//!       whose `clone`, `==` and `drop` call `elem_event` before they touch the value.
+//!       Inside a list operation (Rust API or compiled script function) these are
+//!       always-enabled yield points: an operation that scans a list is cut between any
+//!       two element accesses, and another thread's push / swap runs in between exactly
+//!       if the lock allows it.
 //!   Exactly one controlled thread runs at any time. All scheduler state lives under
 //!   one mutex (`SCHED`). When the running thread parks or finishes, nobody runs; at
 //!   that moment the scheduling decision (`decide`) is taken under the mutex — on the
@@ -26,25 +34,55 @@
 //!   policy, marks it `Running` and unparks it (or simply continues if it picked
 //!   itself). Everybody else stays blocked in `std::thread::park()` and re-checks its
 //!   state under the mutex after a wake-up. A thread released at `BeforeLock` then
-//!   really calls `lock()`, which succeeds at once: the mutex was free and nobody else
-//!   runs. The family's `run` (worker main thread, `run_schedule`) sets a schedule up,
-//!   starts the threads one at a time up to their first hook point, then only waits for
-//!   the outcome (with the watchdog) and collects the results.
+//!   really calls `lock()`, which succeeds at once. The family's `run` (worker main
+//!   thread, `run_schedule`) sets a schedule up, starts the threads one at a time up to
+//!   their first yield point, then only waits for the outcome (with the watchdog).
 //! * Granularity. Lock RELEASE is not a separate yield point: after a release a thread
-//!   only executes thread-local code until its next hook point — the one exception, the
-//!   use of an escaped element pointer, has its own point (`PointerEscaped`). Moving a
-//!   thread-local step across other threads' steps does not change any result, so
-//!   parking at `BeforeLock` + `PointerEscaped` explores every interleaving at
-//!   lock-acquisition / lock-release granularity. For the same reason a lock of a list
-//!   that no other thread can reach (the fresh result list inside `concat`, its
-//!   `to_vec`) is a thread-local step and is not a park point (`--full-points 1` parks
-//!   there as well; same verdicts, more schedules).
-//! * Monitors: (1) deadlock = nobody runs, somebody is unfinished, enabled set empty;
-//!   (2) stale pointer = a `BufferReleased{addr,bytes}` whose range contains an element
-//!   pointer that escaped and is not yet `PointerDone` (decided inside the hook under
-//!   the scheduler's mutex; the stale pointer is never dereferenced: the schedule is
-//!   abandoned instead); (3) linearizability = WGL-style search over the recorded
-//!   invocation/response history against `Vec<u64>` per list object.
+//!   only executes thread-local code until its next yield point — unless it goes on
+//!   reading elements, and every element read (kind `Val`) is a yield point of its own.
+//!   Moving a thread-local step across other threads' steps does not change any result,
+//!   so this explores every interleaving at lock-acquisition / lock-release granularity
+//!   and, for `Val`, at element-access granularity. A lock of a list that no other
+//!   thread can reach (the fresh result list inside `concat`) is a thread-local step and
+//!   not a yield point (`--full-points 1` parks there as well).
+//! * Monitors.
+//!   (1) Deadlock: nobody runs, somebody is unfinished, the enabled set is empty.
+//!   (2) Stale element read, HOOK-INDEPENDENT: `BufferReleased{addr,bytes}` puts the
+//!       range into the set of released ranges; a range leaves the set when a list is seen
+//!       to own those addresses again (after every push the pushing thread, still running
+//!       alone, asks the list where its elements are: `query_live_buffer`). An element
+//!       callback — AFTER its yield, i.e. immediately before the read — checks the
+//!       address of `self` / `other` (addresses on the thread's own stack are
+//!       temporaries) against the ranges released by OTHER threads: a hit means the
+//!       operation is about to read an element through an address into a buffer that a
+//!       concurrent push freed or moved => `stale-pointer:<reading op>-vs-<releasing
+//!       op>@Val`. The read is never performed (the schedule is abandoned), so the check
+//!       is deterministic and harmless. This needs no annotation in roto: it catches any
+//!       code path that keeps using element addresses after the guard is gone (`List::get`
+//!       cloning after unlock, the script-side get re-locking, a slice built under the
+//!       lock and used later in `==` / `to_vec` ...). Backstop: the value read must carry
+//!       the live canary and a plausible id (`...-vs-garbage@Val` otherwise). A realloc
+//!       that grows in place does not move the storage and is (correctly) not reported.
+//!   (3) Linearizability: WGL-style search over the recorded invocation / response
+//!       history (plus the final contents of both lists) against `Vec<u64>` per list.
+//!   Which build flavour sees what: the plain build decides (1)–(3); element kinds `u64`
+//!   and `String` have no callbacks, for them the plain build only has (1) and (3) (a
+//!   stale `u64` read shows up, if at all, as an unexplainable value; a stale `String`
+//!   clone follows a dangling `Arc` and typically kills the worker — the driver reports
+//!   the death with the case). Under the ASan flavour a stale read of ANY kind inside
+//!   roto is a hard heap-use-after-free report; TSan/Miri (families of C15/C12) report
+//!   the unlocked access as a data race.
+//! * Truthful enabledness. "The probe says not free" only means that somebody holds the
+//!   lock in some mode. If the lock type ever admits several holders (reader/writer
+//!   lock), a push / swap / scan of another thread must be schedulable between two
+//!   element callbacks exactly if the real lock lets it in. The harness asks the real
+//!   code (`compatible` / `run_trial`): two helper threads replay, on private lists,
+//!   the holder's operation up to the point where it sits and the entrant's operation
+//!   up to the acquisition in question; the entrant either passes or goes to sleep in
+//!   the lock (OS thread state). Answers are cached per process. On the current tree
+//!   (plain mutex) every answer is "no", i.e. enabled == probe.
+//! * Pairs of lists are locked in address order, so the relative position of `a` and
+//!   `b` is part of the configuration (`lock-order:a<b|b<a`, fixed per case).
 //! * Exploration: depth-first over scheduling choices with replay from a fresh state
 //!   for every schedule (fresh lists, fresh handles, fresh scheduler state; the OS
 //!   threads are pooled, a thread that was leaked / abandoned is replaced). A schedule
@@ -52,22 +90,23 @@
 //!   "lowest enabled thread" (or seeded random); the enabled sets recorded at every step
 //!   give the next prefix. Configurations whose schedule count exceeds the cap get the
 //!   first `cap` schedules in DFS order plus seeded random schedules (`explore:capped`).
-//! * Abandoning a schedule (deadlock / stale pointer): parked threads that are inside
+//! * Abandoning a schedule (deadlock / stale read): parked threads that are inside
 //!   plain Rust frames leave by unwinding with a marker payload (`resume_unwind`, no
 //!   panic hook); guards and handles are released by the unwinding. A thread parked
-//!   below JIT frames (script call) cannot unwind: it is leaked (blocked forever); the
-//!   number of leaked threads is capped per case and per process.
+//!   below JIT frames (script call) or inside an element callback (below the `extern
+//!   "C"` vtable functions) cannot unwind: it is leaked (blocked forever); the number of
+//!   leaked threads is capped per case (`stopped:leak-cap`) and per process. On a tree
+//!   without defects no schedule is ever abandoned.
 //! * Watchdog: if a schedule does not end within 10 s of wall clock (5 orders of
-//!   magnitude above its cost; the running thread neither parks nor finishes) the case
-//!   is reported as `skipped: scheduler-watchdog` (never a violation) and its threads
-//!   are abandoned. `--selftest hang` exercises this path, `--selftest model` breaks
-//!   the model on purpose (the oracle must object).
-//! * Signatures (closed set): `stale-pointer:{List::get|script-get}-vs-push@{u64|String}`,
-//!   `deadlock@<sorted labels of the operations in the cycle>`,
+//!   magnitude above its cost) the case is reported as `skipped: scheduler-watchdog`
+//!   (never a violation) and its threads are abandoned. `--selftest hang` exercises this
+//!   path, `--selftest model` breaks the model on purpose (the oracle must object).
+//! * Signatures: `stale-pointer:<List::get|script-get|eq(a,b)|to_vec|contains|...>-vs-
+//!   <push|garbage>@Val`, `deadlock@<sorted labels of the operations in the cycle>`,
 //!   `not-linearizable@<operation whose result no linearization explains>`.
-//!   An unlocked `List::get` read that overlaps a `swap` of the same slot is a data race
-//!   below lock granularity (outside the property's quantifier): counted and tagged
-//!   (`hazard:unlocked-read:...`), not a verdict.
+//! * Options: `--elems u64,String,Val`, `--sched-cap N`, `--rand-extra N`,
+//!   `--leak-cap N`, `--full-points 1`, `--enum-only 1`, `--selftest hang|model`;
+//!   `LISTSCHED_DEBUG=1` prints the lock trials.
 
 use std::cell::{Cell, RefCell};
 use std::collections::HashSet;
@@ -76,7 +115,7 @@ use std::sync::{Arc, Mutex, MutexGuard};
 use std::time::{Duration, Instant};
 
 use roto::verif::{ListEvent, set_list_hook};
-use roto::{List, NoCtx, RotoString, Runtime, TypedFunc, Value};
+use roto::{List, NoCtx, RotoString, Runtime, TypedFunc, Val, Value, library};
 
 use crate::jsonw::J;
 use crate::rng::Rng;
@@ -92,6 +131,8 @@ const GARBAGE: u64 = u64::MAX;
 pub trait SElem: Value<Transformed: PartialEq> + Clone + Send + Sync + 'static {
     const NAME: &'static str;
     const ROTO: &'static str;
+    /// clone / == / drop of an element report to the scheduler
+    const CALLBACKS: bool = false;
     fn mk(id: u64) -> Self;
     fn id(&self) -> u64;
 }
@@ -122,17 +163,81 @@ impl SElem for RotoString {
     }
 }
 
+/// The monitored element type: a registered host type (`Val<Yv>`, 16 bytes) whose
+/// `clone`, `==` and `drop` report to the scheduler (`elem_event`): they are yield
+/// points and check the address they are about to read.
+#[derive(Debug)]
+pub struct Yv {
+    id: u64,
+    canary: u64,
+}
+
+const CANARY_LIVE: u64 = 0x11fe_c0de_5ced_a11e;
+const CANARY_DEAD: u64 = 0xdead_dead_dead_dead;
+
+impl Yv {
+    fn new(id: u64) -> Yv {
+        Yv { id, canary: CANARY_LIVE }
+    }
+    /// Called after `elem_event` allowed the read: the bytes must be a live element.
+    fn checked_id(&self, what: &'static str) -> u64 {
+        let (id, canary) = (self.id, self.canary);
+        if canary != CANARY_LIVE || id >= 1_000_000 {
+            elem_garbage(what, self as *const Yv as usize, id, canary);
+        }
+        id
+    }
+}
+
+impl Clone for Yv {
+    fn clone(&self) -> Yv {
+        elem_event("clone", self as *const Yv as usize, None);
+        Yv::new(self.checked_id("clone"))
+    }
+}
+
+impl PartialEq for Yv {
+    fn eq(&self, o: &Yv) -> bool {
+        elem_event("eq", self as *const Yv as usize, Some(o as *const Yv as usize));
+        self.checked_id("eq") == o.checked_id("eq")
+    }
+}
+
+impl Drop for Yv {
+    fn drop(&mut self) {
+        elem_event("drop", self as *const Yv as usize, None);
+        self.canary = CANARY_DEAD;
+    }
+}
+
+impl SElem for Val<Yv> {
+    const NAME: &'static str = "Val";
+    const ROTO: &'static str = "Yv";
+    const CALLBACKS: bool = true;
+    fn mk(id: u64) -> Val<Yv> {
+        Val(Yv::new(id))
+    }
+    fn id(&self) -> u64 {
+        // (plain field read: the harness' own observations are not yield points)
+        if self.0.canary == CANARY_LIVE { self.0.id } else { GARBAGE }
+    }
+}
+
 #[derive(Clone, Copy, PartialEq, Eq, Debug)]
 enum ElemKind {
     U64,
     Str,
+    Val,
 }
+
+const ELEM_KINDS: [ElemKind; 3] = [ElemKind::U64, ElemKind::Str, ElemKind::Val];
 
 impl ElemKind {
     fn name(self) -> &'static str {
         match self {
             ElemKind::U64 => "u64",
             ElemKind::Str => "String",
+            ElemKind::Val => "Val",
         }
     }
 }
@@ -157,15 +262,18 @@ enum Op {
     EqAB,
     EqBA,
     Len,
+    ToVec,
     // through a compiled script function
     SGet0,
     SGetLast,
     SEqAB,
     SConcatAB,
+    SContains,
+    SIndex,
 }
 
 /// The alphabet of the exhaustive 2 x <=2 enumeration (Rust API).
-const RUST_OPS: [Op; 13] = [
+const RUST_OPS: [Op; 14] = [
     Op::Get0,
     Op::GetLast,
     Op::PushA,
@@ -179,9 +287,10 @@ const RUST_OPS: [Op; 13] = [
     Op::EqAB,
     Op::EqBA,
     Op::Len,
+    Op::ToVec,
 ];
 /// Script-side operations (thread 0 of the script family).
-const SCRIPT_OPS: [Op; 4] = [Op::SGet0, Op::SGetLast, Op::SEqAB, Op::SConcatAB];
+const SCRIPT_OPS: [Op; 6] = [Op::SGet0, Op::SGetLast, Op::SEqAB, Op::SConcatAB, Op::SContains, Op::SIndex];
 const INIT_LENS: [usize; 3] = [0, 3, 4];
 
 impl Op {
@@ -200,6 +309,9 @@ impl Op {
             Op::EqAB => "eq(a,b)",
             Op::EqBA => "eq(b,a)",
             Op::Len => "len",
+            Op::ToVec => "to_vec",
+            Op::SContains => "s.contains",
+            Op::SIndex => "s.index",
             Op::SGet0 => "s.get(0)",
             Op::SGetLast => "s.get(last)",
             Op::SEqAB => "s.eq(a,b)",
@@ -207,7 +319,7 @@ impl Op {
         }
     }
     fn is_script(self) -> bool {
-        matches!(self, Op::SGet0 | Op::SGetLast | Op::SEqAB | Op::SConcatAB)
+        matches!(self, Op::SGet0 | Op::SGetLast | Op::SEqAB | Op::SConcatAB | Op::SContains | Op::SIndex)
     }
 }
 
@@ -217,7 +329,9 @@ impl Op {
 enum Act {
     Get { obj: usize, idx: usize, script: bool },
     Push { obj: usize, v: u64 },
-    Contains { obj: usize, v: u64 },
+    Contains { obj: usize, v: u64, script: bool },
+    Index { obj: usize, v: u64 },
+    ToVec { obj: usize },
     Swap { obj: usize, i: usize, j: usize },
     Concat { x: usize, y: usize, script: bool },
     Eq { x: usize, y: usize, script: bool },
@@ -239,7 +353,10 @@ impl Act {
             Act::Get { script: false, .. } => "List::get".into(),
             Act::Get { script: true, .. } => "script-get".into(),
             Act::Push { .. } => "push".into(),
-            Act::Contains { .. } => "contains".into(),
+            Act::Contains { script: false, .. } => "contains".into(),
+            Act::Contains { script: true, .. } => "s.contains".into(),
+            Act::Index { .. } => "s.index".into(),
+            Act::ToVec { .. } => "to_vec".into(),
             Act::Swap { .. } => "swap".into(),
             Act::Concat { x, y, script } => format!("{}concat({},{})", if script { "s." } else { "" }, oname(x), oname(y)),
             Act::Eq { x, y, script } => format!("{}eq({},{})", if script { "s." } else { "" }, oname(x), oname(y)),
@@ -253,7 +370,9 @@ impl Act {
         match *self {
             Act::Get { obj, idx, script } => format!("{}{}.get({idx})", if script { "script:" } else { "" }, oname(obj)),
             Act::Push { obj, v } => format!("{}.push(#{v})", oname(obj)),
-            Act::Contains { obj, v } => format!("{}.contains(#{v})", oname(obj)),
+            Act::Contains { obj, v, script } => format!("{}{}.contains(#{v})", if script { "script:" } else { "" }, oname(obj)),
+            Act::Index { obj, v } => format!("script:{}.index(#{v})", oname(obj)),
+            Act::ToVec { obj } => format!("{}.to_vec()", oname(obj)),
             Act::Swap { obj, i, j } => format!("{}.swap({i},{j})", oname(obj)),
             Act::Concat { x, y, script } => format!("{}{}.concat({})", if script { "script:" } else { "" }, oname(x), oname(y)),
             Act::Eq { x, y, script } => format!("{}{} == {}", if script { "script:" } else { "" }, oname(x), oname(y)),
@@ -263,8 +382,16 @@ impl Act {
             Act::Snap { obj } => format!("final {}.to_vec()", oname(obj)),
         }
     }
+    /// what matters for the locks an operation takes: its kind and its lists
+    fn lock_key(&self) -> String {
+        let objs = match *self {
+            Act::Get { obj, .. } | Act::Push { obj, .. } | Act::Contains { obj, .. } | Act::Index { obj, .. } | Act::ToVec { obj } | Act::Swap { obj, .. } | Act::Len { obj } | Act::Snap { obj } => oname(obj),
+            _ => "",
+        };
+        format!("{}{}{}", self.label(), if objs.is_empty() { "" } else { "@" }, objs)
+    }
     fn is_script(&self) -> bool {
-        matches!(self, Act::Get { script: true, .. } | Act::Concat { script: true, .. } | Act::Eq { script: true, .. })
+        matches!(self, Act::Get { script: true, .. } | Act::Concat { script: true, .. } | Act::Eq { script: true, .. } | Act::Contains { script: true, .. } | Act::Index { .. })
     }
 }
 
@@ -326,10 +453,10 @@ impl Config {
                         Op::SGetLast => Act::Get { obj: 0, idx: last, script: true },
                         Op::PushA => Act::Push { obj: 0, v: Self::pushed_value(t, i) },
                         Op::PushB => Act::Push { obj: 1, v: Self::pushed_value(t, i) },
-                        Op::Contains => Act::Contains {
-                            obj: 0,
-                            v: first_push_a(t).unwrap_or(if self.init_len > 0 { 1 } else { 9999 }),
-                        },
+                        Op::Contains => Act::Contains { obj: 0, v: first_push_a(t).unwrap_or(if self.init_len > 0 { last as u64 + 1 } else { 9999 }), script: false },
+                        Op::SContains => Act::Contains { obj: 0, v: first_push_a(t).unwrap_or(if self.init_len > 0 { last as u64 + 1 } else { 9999 }), script: true },
+                        Op::SIndex => Act::Index { obj: 0, v: first_push_a(t).unwrap_or(if self.init_len > 0 { last as u64 + 1 } else { 9999 }) },
+                        Op::ToVec => Act::ToVec { obj: 0 },
                         Op::Swap01 => Act::Swap { obj: 0, i: 0, j: 1 },
                         Op::ConcatAA => Act::Concat { x: 0, y: 0, script: false },
                         Op::ConcatAB => Act::Concat { x: 0, y: 1, script: false },
@@ -394,6 +521,19 @@ struct SFns<E: SElem> {
     get: TypedFunc<NoCtx, fn(List<E>, u64) -> Option<E>>,
     eq: TypedFunc<NoCtx, fn(List<E>, List<E>) -> bool>,
     concat: TypedFunc<NoCtx, fn(List<E>, List<E>) -> List<E>>,
+    contains: TypedFunc<NoCtx, fn(List<E>, E) -> bool>,
+    index: TypedFunc<NoCtx, fn(List<E>, E) -> Option<u64>>,
+}
+
+/// The harness runtime plus the monitored element type.
+fn sched_runtime() -> Runtime<NoCtx> {
+    let mut rt = crate::host::runtime();
+    rt.add(library! {
+        /// element type of the C16 scheduler: clone / == / drop are monitored
+        #[clone] type Yv = Val<Yv>;
+    })
+    .expect("Yv registers");
+    rt
 }
 
 impl<E: SElem> SFns<E> {
@@ -402,13 +542,17 @@ impl<E: SElem> SFns<E> {
         let src = format!(
             "fn g(l: List[{t}], i: u64) -> {t}? {{ l.get(i) }}\n\
              fn e(a: List[{t}], b: List[{t}]) -> bool {{ a == b }}\n\
-             fn c(a: List[{t}], b: List[{t}]) -> List[{t}] {{ a.concat(b) }}\n"
+             fn c(a: List[{t}], b: List[{t}]) -> List[{t}] {{ a.concat(b) }}\n\
+             fn k(l: List[{t}], x: {t}) -> bool {{ l.contains(x) }}\n\
+             fn ix(l: List[{t}], x: {t}) -> u64? {{ l.index(x) }}\n"
         );
         let mut pkg = crate::exec::compile(&src, rt)?;
         Ok(SFns {
             get: pkg.get_function("g").map_err(|e| format!("get_function(g): {e}"))?,
             eq: pkg.get_function("e").map_err(|e| format!("get_function(e): {e}"))?,
             concat: pkg.get_function("c").map_err(|e| format!("get_function(c): {e}"))?,
+            contains: pkg.get_function("k").map_err(|e| format!("get_function(k): {e}"))?,
+            index: pkg.get_function("ix").map_err(|e| format!("get_function(ix): {e}"))?,
         })
     }
 }
@@ -429,7 +573,8 @@ unsafe impl Send for Probe {}
 #[derive(Clone, Copy)]
 enum Point {
     Lock { list: usize, probe: Probe },
-    Escaped,
+    /// inside `clone` / `==` / `drop` of a monitored element, before it reads
+    Elem,
 }
 
 #[derive(Clone, Copy)]
@@ -453,12 +598,15 @@ struct ThreadSt {
     panic: Option<String>,
 }
 
+/// A buffer range that a list released (freed or moved) and that no list has been
+/// seen to own since.
 #[derive(Clone, Debug)]
-struct LivePtr {
-    thread: usize,
+struct Released {
     addr: usize,
-    size: usize,
-    act: Act,
+    bytes: usize,
+    thread: usize,
+    act: Option<Act>,
+    clock: u64,
 }
 
 #[derive(Clone, Debug)]
@@ -471,23 +619,17 @@ struct HOp {
     res: Res,
 }
 
+/// An element callback was about to read (or read) memory that is not a live element.
 #[derive(Clone, Debug)]
 struct Stale {
+    /// reading thread, its operation, the callback
     esc_thread: usize,
     esc: Act,
-    rel_thread: usize,
-    rel: Option<Act>,
+    what: &'static str,
     addr: usize,
-    buf: usize,
-    bytes: usize,
-}
-
-#[derive(Clone, Debug)]
-struct Hazard {
-    reader: usize,
-    read: Act,
-    writer: usize,
-    write: Act,
+    /// the release that made the address stale (None: the bytes read are garbage)
+    rel: Option<Released>,
+    garbage: Option<(u64, u64)>,
 }
 
 struct Sched {
@@ -498,10 +640,14 @@ struct Sched {
     clock: u64,
     events: u64,
     releases: u64,
-    live: Vec<LivePtr>,
+    /// yields at element callbacks
+    elem_yields: u64,
+    released: Vec<Released>,
     stale: Option<Stale>,
-    hazards: Vec<Hazard>,
     hist: Vec<HOp>,
+    /// lock compatibility learnt by trials (persists over schedules), see `compatible`
+    compat: std::collections::BTreeMap<String, bool>,
+    trials: u64,
     /// mutex addresses of the shared lists a, b
     shared: [usize; 2],
     full_points: bool,
@@ -535,10 +681,12 @@ static SCHED: Mutex<Sched> = Mutex::new(Sched {
     clock: 0,
     events: 0,
     releases: 0,
-    live: Vec::new(),
+    elem_yields: 0,
+    released: Vec::new(),
     stale: None,
-    hazards: Vec::new(),
     hist: Vec::new(),
+    compat: std::collections::BTreeMap::new(),
+    trials: 0,
     shared: [0, 0],
     full_points: false,
     obj_len: [0, 0],
@@ -605,6 +753,7 @@ fn send(s: MutexGuard<'static, Sched>, w: Wake) {
 type Job = Box<dyn FnOnce() + Send + 'static>;
 
 fn pool_thread(t: usize, id: u64) {
+    mark_stack_top();
     loop {
         let job = loop {
             let mut s = lock_sched();
@@ -631,7 +780,7 @@ fn pool_ensure(s: &mut Sched, t: usize) {
         s.pool_id[t] = id;
         let jh = std::thread::Builder::new()
             .name(format!("sched-T{t}"))
-            .stack_size(1 << 20)
+            .stack_size(STACK_SIZE)
             .spawn(move || pool_thread(t, id))
             .expect("spawn controlled thread");
         s.handles[t] = Some(jh.thread().clone());
@@ -664,6 +813,47 @@ thread_local! {
     static IN_SCRIPT: Cell<bool> = const { Cell::new(false) };
     /// controller: collect the mutex addresses of BeforeLock events
     static LEARN: RefCell<Option<Vec<usize>>> = const { RefCell::new(None) };
+    /// the thread is inside a call into roto's list code made by `exec_act` (element
+    /// callbacks outside such a call belong to the harness' own bookkeeping)
+    static IN_OP: Cell<bool> = const { Cell::new(false) };
+    /// harness-internal list work on this thread (set-up, buffer queries, trials):
+    /// hook events and element callbacks pass through; callbacks record addresses
+    static INTERNAL: Cell<bool> = const { Cell::new(false) };
+    static SEEN_ADDRS: RefCell<Option<Vec<usize>>> = const { RefCell::new(None) };
+    /// role of a lock-compatibility trial thread
+    static CALIB: Cell<Option<CalRole>> = const { Cell::new(None) };
+}
+
+fn internal<R>(f: impl FnOnce() -> R) -> R {
+    let old = INTERNAL.with(|c| c.replace(true));
+    let r = f();
+    INTERNAL.with(|c| c.set(old));
+    r
+}
+
+thread_local! {
+    /// address of a local of the thread's entry function (pool and trial threads)
+    static STACK_TOP: Cell<usize> = const { Cell::new(0) };
+}
+const STACK_SIZE: usize = 1 << 20;
+
+#[inline(never)]
+fn mark_stack_top() {
+    let here = 0u8;
+    STACK_TOP.with(|c| c.set(&here as *const u8 as usize));
+}
+
+/// An address within the running thread's own stack is a thread-local temporary
+/// (operation argument, script stack slot), not list storage. Pool and trial threads
+/// have stacks of `STACK_SIZE` whose top was recorded at thread start, so the test is
+/// exact for them (a malloc arena may be mapped right next to a stack).
+fn on_own_stack(addr: usize) -> bool {
+    let top = STACK_TOP.with(|c| c.get());
+    if top != 0 {
+        return addr <= top + 4096 && addr + STACK_SIZE >= top;
+    }
+    let here = 0u8;
+    addr.abs_diff(&here as *const u8 as usize) < STACK_SIZE
 }
 
 fn lock_sched() -> MutexGuard<'static, Sched> {
@@ -682,8 +872,10 @@ fn block_forever() -> ! {
 
 /// Leave an abandoned schedule from inside a hook point. Never returns to roto.
 fn bail(mut s: MutexGuard<'static, Sched>, me: usize) -> ! {
-    if IN_SCRIPT.with(|c| c.get()) {
-        // JIT frames below us: unwinding is impossible, stay parked forever
+    let at_elem = matches!(s.threads[me].state, TState::Parked(Point::Elem));
+    if IN_SCRIPT.with(|c| c.get()) || at_elem {
+        // JIT frames below us, or the `extern "C"` clone_fn / eq_fn / drop_fn of the
+        // element vtable: unwinding is impossible, stay parked forever
         s.threads[me].leaked = true;
         send(s, Wake::Controller);
         block_forever()
@@ -694,7 +886,7 @@ fn bail(mut s: MutexGuard<'static, Sched>, me: usize) -> ! {
 }
 
 /// Park the calling controlled thread at `point` until the controller schedules it.
-fn park(mut s: MutexGuard<'static, Sched>, generation: u64, me: usize, point: Point) {
+fn park(mut s: MutexGuard<'static, Sched>, generation: u64, me: usize, point: Point) -> MutexGuard<'static, Sched> {
     s.threads[me].state = TState::Parked(point);
     s.running = None;
     let w = if s.startup {
@@ -733,9 +925,24 @@ fn park(mut s: MutexGuard<'static, Sched>, generation: u64, me: usize, point: Po
     if let Point::Lock { list, .. } = point {
         s.threads[me].woken_locks.push(list);
     }
+    s
 }
 
 fn hook(ev: &ListEvent<'_>) {
+    if INTERNAL.with(|c| c.get()) {
+        if let ListEvent::BeforeLock { list, .. } = ev {
+            LEARN.with(|l| {
+                if let Some(v) = l.borrow_mut().as_mut() {
+                    v.push(*list);
+                }
+            });
+        }
+        return;
+    }
+    if let Some(role) = CALIB.with(|c| c.get()) {
+        cal_hook(role, ev);
+        return;
+    }
     let Some((generation, me)) = ME.with(|m| m.get()) else {
         // not a controlled thread (setup, final observation): untouched
         if let ListEvent::BeforeLock { list, .. } = ev {
@@ -761,19 +968,104 @@ fn hook(ev: &ListEvent<'_>) {
             let p: *const (dyn Fn() -> bool + '_) = *is_free;
             // SAFETY: only the lifetime is erased; see `Probe`.
             let probe = Probe(unsafe { std::mem::transmute::<*const (dyn Fn() -> bool + '_), *const (dyn Fn() -> bool + 'static)>(p) });
-            park(s, generation, me, Point::Lock { list: *list, probe });
+            drop(park(s, generation, me, Point::Lock { list: *list, probe }));
         }
         ListEvent::BufferReleased { addr, bytes } => {
+            // the range stops being list storage (it is forgotten again when a list is
+            // seen to own these addresses, see `note_live_buffer`)
             s.releases += 1;
-            let hit = s.live.iter().find(|p| p.addr >= *addr && p.addr < *addr + *bytes).cloned();
-            if let Some(p) = hit
-                && s.stale.is_none()
-            {
-                let rel = s.threads[me].cur_act;
-                s.stale = Some(Stale { esc_thread: p.thread, esc: p.act, rel_thread: me, rel, addr: p.addr, buf: *addr, bytes: *bytes });
-            }
+            let act = s.threads[me].cur_act;
+            let clock = s.clock;
+            s.released.retain(|r| r.addr + r.bytes <= *addr || *addr + *bytes <= r.addr);
+            s.released.push(Released { addr: *addr, bytes: *bytes, thread: me, act, clock });
         }
     }
+}
+
+/// Element callback (`what` = clone / eq / drop of a monitored element at `a1`,
+/// compared with `a2`). On a controlled thread inside a list operation this is (a) a
+/// yield point — always enabled — and then (b) the stale check: the addresses that are
+/// about to be read must not lie in a range that another thread's list operation
+/// released. The check comes AFTER the yield: from here to the read this thread runs
+/// alone. On a stale address the schedule ends here; the read never happens.
+fn elem_event(what: &'static str, a1: usize, a2: Option<usize>) {
+    if INTERNAL.with(|c| c.get()) {
+        if what == "clone" {
+            // (`query_live_buffer`: the elements a list hands out are where its buffer is)
+            SEEN_ADDRS.with(|l| {
+                if let Some(v) = l.borrow_mut().as_mut() {
+                    v.push(a1);
+                }
+            });
+        }
+        return;
+    }
+    if let Some(role) = CALIB.with(|c| c.get()) {
+        if !(on_own_stack(a1) && a2.is_none_or(on_own_stack)) {
+            cal_elem(role);
+        }
+        return;
+    }
+    let Some((generation, me)) = ME.with(|m| m.get()) else {
+        return;
+    };
+    if !IN_OP.with(|c| c.get()) || (on_own_stack(a1) && a2.is_none_or(on_own_stack)) {
+        return;
+    }
+    let mut s = lock_sched();
+    if s.generation != generation || s.abort {
+        return;
+    }
+    s.events += 1;
+    s.elem_yields += 1;
+    let mut s = park(s, generation, me, Point::Elem);
+    if what == "drop" {
+        // (the storage of a value that is dropped is its owner's business)
+        return;
+    }
+    for a in [Some(a1), a2].into_iter().flatten() {
+        if on_own_stack(a) {
+            continue;
+        }
+        if let Some(r) = s.released.iter().find(|r| r.thread != me && a >= r.addr && a < r.addr + r.bytes).cloned() {
+            let esc = s.threads[me].cur_act.unwrap_or(Act::CloneH);
+            s.stale = Some(Stale { esc_thread: me, esc, what, addr: a, rel: Some(r), garbage: None });
+            // end of the schedule: this thread never performs the read
+            drop(park(s, generation, me, Point::Elem));
+            unreachable!("a thread with a stale address is never scheduled again");
+        }
+    }
+}
+
+/// The bytes of an element that `elem_event` let through are not a live element.
+fn elem_garbage(what: &'static str, addr: usize, id: u64, canary: u64) {
+    if INTERNAL.with(|c| c.get()) || CALIB.with(|c| c.get()).is_some() {
+        return;
+    }
+    let Some((generation, me)) = ME.with(|m| m.get()) else {
+        return;
+    };
+    if !IN_OP.with(|c| c.get()) {
+        return;
+    }
+    let mut s = lock_sched();
+    if s.generation != generation || s.abort {
+        return;
+    }
+    let esc = s.threads[me].cur_act.unwrap_or(Act::CloneH);
+    s.stale = Some(Stale { esc_thread: me, esc, what, addr, rel: None, garbage: Some((id, canary)) });
+    drop(park(s, generation, me, Point::Elem));
+    unreachable!("a thread that read garbage is never scheduled again");
+}
+
+/// A list was seen to own the elements at `addrs` (all of one buffer): released
+/// ranges that overlap them have been allocated again.
+fn note_live_buffer(s: &mut Sched, addrs: &[usize], elem_size: usize) {
+    let (Some(lo), Some(hi)) = (addrs.iter().min(), addrs.iter().max()) else {
+        return;
+    };
+    let (lo, hi) = (*lo, *hi + elem_size);
+    s.released.retain(|r| r.addr + r.bytes <= lo || hi <= r.addr);
 }
 
 // ---------------------------------------------------------------------------
@@ -792,51 +1084,77 @@ impl<E: SElem> Handles<E> {
     }
 }
 
+/// Call into roto's list code: element callbacks in here are yield points.
+fn in_op<R>(f: impl FnOnce() -> R) -> R {
+    IN_OP.with(|c| c.set(true));
+    let r = f();
+    IN_OP.with(|c| c.set(false));
+    r
+}
+
+/// Call a compiled script function (no unwinding through its frames).
+fn in_script<R>(f: impl FnOnce() -> R) -> R {
+    IN_SCRIPT.with(|c| c.set(true));
+    let r = in_op(f);
+    IN_SCRIPT.with(|c| c.set(false));
+    r
+}
+
+fn ids<E: SElem>(v: &[E]) -> Vec<u64> {
+    v.iter().map(|e| e.id()).collect()
+}
+
 fn exec_act<E: SElem>(h: &mut Handles<E>, act: Act, fns: &Option<Arc<SFns<E>>>) -> Res {
-    let script = |f: &mut dyn FnMut(&SFns<E>) -> Res| -> Res {
-        let fns = fns.as_ref().expect("script functions compiled");
-        IN_SCRIPT.with(|c| c.set(true));
-        let r = f(fns);
-        IN_SCRIPT.with(|c| c.set(false));
-        r
-    };
+    let f = || fns.as_ref().expect("script functions compiled");
     match act {
-        Act::Get { obj, idx, script: false } => Res::Opt(h.h(obj).get(idx).map(|e| e.id())),
+        Act::Get { obj, idx, script: false } => {
+            let r = in_op(|| h.h(obj).get(idx));
+            Res::Opt(r.map(|e| e.id()))
+        }
         Act::Get { obj, idx, script: true } => {
             let l = h.h(obj).clone();
-            let mut l = Some(l);
-            script(&mut |f| Res::Opt(f.get.call(l.take().unwrap(), idx as u64).map(|e| e.id())))
+            let r = in_script(|| f().get.call(l, idx as u64));
+            Res::Opt(r.map(|e| e.id()))
         }
         Act::Push { obj, v } => {
-            h.h(obj).push(E::mk(v));
+            let e = E::mk(v);
+            in_op(|| h.h(obj).push(e));
             Res::Unit
         }
-        Act::Contains { obj, v } => Res::Bool(h.h(obj).contains(&E::mk(v))),
+        Act::Contains { obj, v, script: false } => {
+            let e = E::mk(v);
+            Res::Bool(in_op(|| h.h(obj).contains(&e)))
+        }
+        Act::Contains { obj, v, script: true } => {
+            let (l, e) = (h.h(obj).clone(), E::mk(v));
+            Res::Bool(in_script(|| f().contains.call(l, e)))
+        }
+        Act::Index { obj, v } => {
+            let (l, e) = (h.h(obj).clone(), E::mk(v));
+            Res::Opt(in_script(|| f().index.call(l, e)))
+        }
+        Act::ToVec { obj } => {
+            let v = in_op(|| h.h(obj).to_vec());
+            Res::Seq(ids(&v))
+        }
         Act::Swap { obj, i, j } => {
-            h.h(obj).swap(i, j);
+            in_op(|| h.h(obj).swap(i, j));
             Res::Unit
         }
-        Act::Concat { x, y, script: false } => {
-            let c = h.h(x).concat(h.h(y));
-            Res::Seq(c.to_vec().iter().map(|e| e.id()).collect())
+        Act::Concat { x, y, script } => {
+            let c = if script {
+                let (p, q) = (h.h(x).clone(), h.h(y).clone());
+                in_script(|| f().concat.call(p, q))
+            } else {
+                in_op(|| h.h(x).concat(h.h(y)))
+            };
+            // the result list is private: reading and dropping it is harness work
+            internal(|| Res::Seq(ids(&c.to_vec())))
         }
-        Act::Concat { x, y, script: true } => {
-            let mut args = Some((h.h(x).clone(), h.h(y).clone()));
-            let mut out = None;
-            script(&mut |f| {
-                let (p, q) = args.take().unwrap();
-                out = Some(f.concat.call(p, q));
-                Res::Unit
-            });
-            Res::Seq(out.unwrap().to_vec().iter().map(|e| e.id()).collect())
-        }
-        Act::Eq { x, y, script: false } => Res::Bool(h.h(x) == h.h(y)),
+        Act::Eq { x, y, script: false } => Res::Bool(in_op(|| h.h(x) == h.h(y))),
         Act::Eq { x, y, script: true } => {
-            let mut args = Some((h.h(x).clone(), h.h(y).clone()));
-            script(&mut |f| {
-                let (p, q) = args.take().unwrap();
-                Res::Bool(f.eq.call(p, q))
-            })
+            let (p, q) = (h.h(x).clone(), h.h(y).clone());
+            Res::Bool(in_script(|| f().eq.call(p, q)))
         }
         Act::Len { obj } => {
             if SELFTEST.load(Ordering::Relaxed) == 1 && ME.with(|m| m.get()).is_some_and(|m| m.1 == 0) {
@@ -844,7 +1162,7 @@ fn exec_act<E: SElem>(h: &mut Handles<E>, act: Act, fns: &Option<Arc<SFns<E>>>) 
                     std::thread::sleep(Duration::from_secs(3600));
                 }
             }
-            Res::Num(h.h(obj).len() as u64)
+            Res::Num(in_op(|| h.h(obj).len()) as u64)
         }
         Act::CloneH => {
             let c = h.h(0).clone();
@@ -860,6 +1178,20 @@ fn exec_act<E: SElem>(h: &mut Handles<E>, act: Act, fns: &Option<Arc<SFns<E>>>) 
         }
         Act::Snap { .. } => Res::Unit,
     }
+}
+
+/// After a push returned: where does the list keep its elements now? (The thread still
+/// runs alone and nobody holds the lock, so `to_vec` cannot block.) Released ranges that
+/// overlap the live buffer have been allocated again and are forgotten.
+fn query_live_buffer<E: SElem>(l: &List<E>) -> Vec<usize> {
+    if !E::CALLBACKS {
+        return Vec::new();
+    }
+    internal(|| {
+        SEEN_ADDRS.with(|c| *c.borrow_mut() = Some(Vec::new()));
+        drop(l.to_vec());
+        SEEN_ADDRS.with(|c| c.borrow_mut().take()).unwrap_or_default()
+    })
 }
 
 fn thread_main<E: SElem>(generation: u64, me: usize, prog: Vec<Act>, mut h: Handles<E>, fns: Option<Arc<SFns<E>>>) {
@@ -878,6 +1210,10 @@ fn thread_main<E: SElem>(generation: u64, me: usize, prog: Vec<Act>, mut h: Hand
                 th.woken_locks.clear();
             }
             let res = exec_act(&mut h, *act, &fns);
+            let live = match *act {
+                Act::Push { obj, .. } => query_live_buffer(h.h(obj)),
+                _ => Vec::new(),
+            };
             {
                 let mut s = lock_sched();
                 if s.generation != generation {
@@ -893,28 +1229,15 @@ fn thread_main<E: SElem>(generation: u64, me: usize, prog: Vec<Act>, mut h: Hand
                 let (inv, resp) = (s.threads[me].inv, s.clock);
                 s.hist.push(HOp { t: me, i, act: *act, inv, resp, res });
                 s.threads[me].cur_act = None;
-                match *act {
-                    Act::Push { obj, .. } => s.obj_len[obj] += 1,
-                    Act::Swap { obj, i, j } => {
-                        // hazard (not a C16 verdict): a `List::get` reads its slot without
-                        // the lock while this swap wrote it under the lock
-                        let len = s.obj_len[obj];
-                        if i != j && i < len && j < len {
-                            let hz: Vec<Hazard> = s
-                                .live
-                                .iter()
-                                .filter(|p| p.thread != me)
-                                .filter(|p| matches!(p.act, Act::Get { obj: o, idx, script: false } if o == obj && (idx == i || idx == j)))
-                                .map(|p| Hazard { reader: p.thread, read: p.act, writer: me, write: *act })
-                                .collect();
-                            s.hazards.extend(hz);
-                        }
-                    }
-                    _ => {}
+                if let Act::Push { obj, .. } = *act {
+                    s.obj_len[obj] += 1;
+                    note_live_buffer(&mut s, &live, std::mem::size_of::<E>());
                 }
             }
         }
     });
+    IN_OP.with(|c| c.set(false));
+    INTERNAL.with(|c| c.set(false));
     drop(h);
     ME.with(|m| m.set(None));
     IN_SCRIPT.with(|c| c.set(false));
@@ -947,6 +1270,273 @@ fn thread_main<E: SElem>(generation: u64, me: usize, prog: Vec<Act>, mut h: Hand
 }
 
 // ---------------------------------------------------------------------------
+// Truthful enabledness: lock-compatibility trials
+// ---------------------------------------------------------------------------
+//
+// The probe of `BeforeLock` answers "is the lock free". For a plain mutex that is the
+// same as "this acquisition will not wait". It is NOT the same if the lock ever admits
+// several holders (e.g. a reader/writer lock whose probe is `try_write`): then a thread
+// must be schedulable between two element callbacks of another thread's scan exactly if
+// the real lock lets it in. The harness never guesses that: when the probe says "not
+// free", the question "can operation E at its k-th lock acquisition enter while
+// operation H sits at this point of its critical section" is put to the REAL code once,
+// on private lists of the monitored element type, with two helper threads: H runs up to
+// the same point (an element callback / its next lock acquisition) and stays there; E
+// runs up to the acquisition in question and goes on; E either passes (next event of E,
+// or E returns) or goes to sleep in the lock (its OS thread state is `S`; without
+// /proc: it did not pass within 50 ms). The answer is a property of the code under test,
+// is cached for the process and only ever ENABLES more (a wrong "no" loses interleavings,
+// a wrong "yes" would hang the schedule and end as `skipped: scheduler-watchdog`).
+
+#[derive(Clone, Copy, Debug)]
+enum CalRole {
+    /// stop (holding whatever is held) after `grants` acquisitions of shared lists: at
+    /// the first element callback (`at_elem`) or at the next acquisition
+    Holder { grants: usize, at_elem: bool },
+    /// the acquisition number `gate` (0-based) of a shared list is the one in question
+    Entrant { gate: usize },
+}
+
+mod cal {
+    use std::sync::atomic::{AtomicBool, AtomicU64, AtomicUsize};
+    pub static HOLDER_READY: AtomicBool = AtomicBool::new(false);
+    pub static HOLDER_DONE: AtomicBool = AtomicBool::new(false);
+    pub static RELEASE: AtomicBool = AtomicBool::new(false);
+    pub static AT_GATE: AtomicBool = AtomicBool::new(false);
+    pub static PASSED: AtomicBool = AtomicBool::new(false);
+    pub static ENTRANT_DONE: AtomicBool = AtomicBool::new(false);
+    pub static ENTRANT_TID: AtomicU64 = AtomicU64::new(0);
+    pub static SHARED: [AtomicUsize; 2] = [AtomicUsize::new(0), AtomicUsize::new(0)];
+}
+
+thread_local! {
+    /// trial thread: acquisitions of shared lists seen so far / holder already stopped
+    static CAL_SEEN: Cell<usize> = const { Cell::new(0) };
+    static CAL_STOPPED: Cell<bool> = const { Cell::new(false) };
+}
+
+fn cal_stop_here() {
+    CAL_STOPPED.with(|c| c.set(true));
+    cal::HOLDER_READY.store(true, Ordering::SeqCst);
+    while !cal::RELEASE.load(Ordering::SeqCst) {
+        std::thread::park_timeout(Duration::from_micros(200));
+    }
+}
+
+fn cal_hook(role: CalRole, ev: &ListEvent<'_>) {
+    let shared = |l: usize| l == cal::SHARED[0].load(Ordering::SeqCst) || l == cal::SHARED[1].load(Ordering::SeqCst);
+    match (role, ev) {
+        (CalRole::Holder { grants, at_elem }, ListEvent::BeforeLock { list, .. }) if shared(*list) => {
+            let seen = CAL_SEEN.with(|c| c.get());
+            if !at_elem && seen == grants && !CAL_STOPPED.with(|c| c.get()) {
+                cal_stop_here();
+            }
+            CAL_SEEN.with(|c| c.set(seen + 1));
+        }
+        (CalRole::Entrant { gate }, ListEvent::BeforeLock { list, .. }) if shared(*list) => {
+            let seen = CAL_SEEN.with(|c| c.get());
+            if seen == gate {
+                cal::AT_GATE.store(true, Ordering::SeqCst);
+            } else if seen > gate {
+                cal::PASSED.store(true, Ordering::SeqCst);
+            }
+            CAL_SEEN.with(|c| c.set(seen + 1));
+        }
+        (CalRole::Entrant { gate }, _) => {
+            if CAL_SEEN.with(|c| c.get()) > gate {
+                cal::PASSED.store(true, Ordering::SeqCst);
+            }
+        }
+        _ => {}
+    }
+}
+
+fn cal_elem(role: CalRole) {
+    match role {
+        CalRole::Holder { grants, at_elem } => {
+            if at_elem && CAL_SEEN.with(|c| c.get()) >= grants && grants > 0 && !CAL_STOPPED.with(|c| c.get()) {
+                cal_stop_here();
+            }
+        }
+        CalRole::Entrant { gate } => {
+            if CAL_SEEN.with(|c| c.get()) > gate {
+                cal::PASSED.store(true, Ordering::SeqCst);
+            }
+        }
+    }
+}
+
+/// Script functions for the trial lists (set when a case with script operations runs).
+static CAL_FNS: Mutex<Option<Arc<SFns<Val<Yv>>>>> = Mutex::new(None);
+
+fn own_tid() -> u64 {
+    std::fs::read_link("/proc/thread-self").ok().and_then(|p| p.file_name().and_then(|f| f.to_str().and_then(|f| f.parse().ok()))).unwrap_or(0)
+}
+
+/// `S` (sleeping), `R` (running / runnable), ... of a thread of this process.
+fn thread_state(tid: u64) -> Option<char> {
+    let st = std::fs::read_to_string(format!("/proc/self/task/{tid}/stat")).ok()?;
+    st.rsplit_once(") ")?.1.chars().next()
+}
+
+/// One trial (see above). `order_ab`: the mutex of `a` lies below that of `b` (pairs
+/// of locks are taken in address order, so the trial lists must be laid out alike).
+fn run_trial(hact: Act, hrole: CalRole, eact: Act, erole: CalRole, order_ab: bool) -> bool {
+    let fns = CAL_FNS.lock().unwrap_or_else(|e| e.into_inner()).clone();
+    if (hact.is_script() || eact.is_script()) && fns.is_none() {
+        return false;
+    }
+    let (a, b, addrs) = internal(|| {
+        let x: List<Val<Yv>> = (1..=5u64).map(<Val<Yv>>::mk).collect();
+        let y: List<Val<Yv>> = (1..=5u64).map(<Val<Yv>>::mk).collect();
+        LEARN.with(|l| *l.borrow_mut() = Some(Vec::new()));
+        let _ = x.len();
+        let _ = y.len();
+        let ad = LEARN.with(|l| l.borrow_mut().take()).unwrap_or_default();
+        if ad.len() == 2 && (ad[0] < ad[1]) != order_ab { (y, x, vec![ad[1], ad[0]]) } else { (x, y, ad) }
+    });
+    if addrs.len() != 2 {
+        return false;
+    }
+    cal::SHARED[0].store(addrs[0], Ordering::SeqCst);
+    cal::SHARED[1].store(addrs[1], Ordering::SeqCst);
+    for f in [&cal::HOLDER_READY, &cal::HOLDER_DONE, &cal::RELEASE, &cal::AT_GATE, &cal::PASSED, &cal::ENTRANT_DONE] {
+        f.store(false, Ordering::SeqCst);
+    }
+    cal::ENTRANT_TID.store(0, Ordering::SeqCst);
+    let spawn = |role: CalRole, act: Act, done: &'static std::sync::atomic::AtomicBool, entrant: bool| {
+        let mut h = Handles { a: a.clone(), b: b.clone(), extra: Vec::new() };
+        let fns = fns.clone();
+        std::thread::Builder::new()
+            .name("sched-trial".into())
+            .stack_size(STACK_SIZE)
+            .spawn(move || {
+                mark_stack_top();
+                if entrant {
+                    cal::ENTRANT_TID.store(own_tid().max(1), Ordering::SeqCst);
+                }
+                CALIB.with(|c| c.set(Some(role)));
+                let _ = crate::work::catch(|| exec_act(&mut h, act, &fns));
+                CALIB.with(|c| c.set(None));
+                if entrant {
+                    cal::PASSED.store(true, Ordering::SeqCst);
+                }
+                internal(|| drop(h));
+                done.store(true, Ordering::SeqCst);
+            })
+            .expect("spawn trial thread")
+    };
+    let wait = |cond: &dyn Fn() -> bool, limit: Duration| -> bool {
+        let end = Instant::now() + limit;
+        while !cond() {
+            if Instant::now() >= end {
+                return false;
+            }
+            std::thread::sleep(Duration::from_micros(20));
+        }
+        true
+    };
+    let holder = spawn(hrole, hact, &cal::HOLDER_DONE, false);
+    let mut answer = false;
+    let ready = wait(&|| cal::HOLDER_READY.load(Ordering::SeqCst) || cal::HOLDER_DONE.load(Ordering::SeqCst), Duration::from_secs(2));
+    let mut entrant = None;
+    if ready && cal::HOLDER_READY.load(Ordering::SeqCst) {
+        entrant = Some(spawn(erole, eact, &cal::ENTRANT_DONE, true));
+        let end = Instant::now() + Duration::from_secs(1);
+        let started = Instant::now();
+        let mut asleep = 0;
+        loop {
+            if cal::PASSED.load(Ordering::SeqCst) {
+                answer = true;
+                break;
+            }
+            let tid = cal::ENTRANT_TID.load(Ordering::SeqCst);
+            match if tid > 1 { thread_state(tid) } else { None } {
+                Some('S') => {
+                    asleep += 1;
+                    if asleep >= 3 {
+                        break;
+                    }
+                }
+                Some(_) => asleep = 0,
+                None => {
+                    // no /proc: give the entrant 50 ms
+                    if tid != 0 && started.elapsed() > Duration::from_millis(50) {
+                        break;
+                    }
+                }
+            }
+            if Instant::now() >= end {
+                break;
+            }
+            std::thread::sleep(Duration::from_micros(30));
+        }
+        if !answer && cal::PASSED.load(Ordering::SeqCst) {
+            answer = true;
+        }
+    }
+    cal::RELEASE.store(true, Ordering::SeqCst);
+    holder.thread().unpark();
+    let all_done = wait(&|| cal::HOLDER_DONE.load(Ordering::SeqCst) && (entrant.is_none() || cal::ENTRANT_DONE.load(Ordering::SeqCst)), Duration::from_secs(2));
+    if all_done {
+        let _ = holder.join();
+        if let Some(e) = entrant {
+            let _ = e.join();
+        }
+        internal(|| drop((a, b)));
+    } else {
+        // the two operations block each other for good (a genuine lock-order problem
+        // of the code under test; the scheduler itself reports it as a deadlock)
+        LEAKED.fetch_add(2, Ordering::SeqCst);
+        std::mem::forget((a, b));
+    }
+    answer
+}
+
+/// Thread `t` is parked before the acquisition of `list` and the probe says "not
+/// free": may it enter nevertheless? Only if every thread that was let into `list` in
+/// its current operation (and is therefore possibly still inside) is compatible.
+fn compatible(s: &mut Sched, t: usize, list: usize) -> bool {
+    if !s.shared.contains(&list) {
+        return false;
+    }
+    let Some(eact) = s.threads[t].cur_act else {
+        return false;
+    };
+    let shared = s.shared;
+    let count = |th: &ThreadSt| th.woken_locks.iter().filter(|l| shared.contains(l)).count();
+    let gate = count(&s.threads[t]);
+    let holders: Vec<usize> = (0..s.threads.len()).filter(|c| *c != t && !matches!(s.threads[*c].state, TState::Finished) && s.threads[*c].woken_locks.contains(&list)).collect();
+    if holders.is_empty() {
+        return false;
+    }
+    for c in holders {
+        let Some(hact) = s.threads[c].cur_act else {
+            return false;
+        };
+        let grants = count(&s.threads[c]);
+        let at_elem = matches!(s.threads[c].state, TState::Parked(Point::Elem));
+        let key = format!("{}#{grants}{}|{}#{gate}|{}", hact.lock_key(), if at_elem { "e" } else { "l" }, eact.lock_key(), shared[0] < shared[1]);
+        let ok = match s.compat.get(&key) {
+            Some(v) => *v,
+            None => {
+                let v = run_trial(hact, CalRole::Holder { grants, at_elem }, eact, CalRole::Entrant { gate }, shared[0] < shared[1]);
+                if std::env::var_os("LISTSCHED_DEBUG").is_some() {
+                    eprintln!("list-sched: lock trial {key} -> {v}");
+                }
+                s.compat.insert(key, v);
+                s.trials += 1;
+                v
+            }
+        };
+        if !ok {
+            return false;
+        }
+    }
+    true
+}
+
+// ---------------------------------------------------------------------------
 // Controller: one schedule
 // ---------------------------------------------------------------------------
 
@@ -971,7 +1561,7 @@ struct Step {
     mask: u8,
     chosen: u8,
     op: usize,
-    point: u8, // 0 lock(a), 1 lock(b), 2 lock(private), 3 use-pointer
+    point: u8, // 0 lock(a), 1 lock(b), 2 lock(private), 3 element callback
 }
 
 struct SchedOut {
@@ -981,7 +1571,7 @@ struct SchedOut {
     finals: [Vec<u64>; 2],
     events: u64,
     releases: u64,
-    hazards: Vec<Hazard>,
+    elem_yields: u64,
     leaked: u64,
 }
 
@@ -1010,15 +1600,18 @@ fn decide(s: &mut Sched, caller: Option<usize>) -> Wake {
     if fail.is_none() {
         for t in 0..n {
             match s.threads[t].state {
-                TState::Parked(Point::Lock { probe, .. }) => {
+                TState::Parked(Point::Lock { probe, list }) => {
                     unfinished += 1;
                     // SAFETY: thread t is parked inside the hook callback that owns the
                     // closure (if t is the calling thread: it is inside that callback)
-                    if unsafe { (*probe.0)() } {
+                    let free = unsafe { (*probe.0)() };
+                    // "not free" only means that somebody holds the lock in some mode;
+                    // whether THIS acquisition has to wait is asked of the real lock
+                    if free || compatible(s, t, list) {
                         mask |= 1 << t;
                     }
                 }
-                TState::Parked(Point::Escaped) => {
+                TState::Parked(Point::Elem) => {
                     unfinished += 1;
                     mask |= 1 << t;
                 }
@@ -1035,22 +1628,24 @@ fn decide(s: &mut Sched, caller: Option<usize>) -> Wake {
     }
     let lname = |s: &Sched, l: usize| if l == s.shared[0] { "a" } else if l == s.shared[1] { "b" } else { "private" };
     if fail.is_none() && mask == 0 {
-        // deadlock: every unfinished thread waits for a mutex that is not free
+        // deadlock: every unfinished thread waits for a lock that does not let it in
         let mut blocked = Vec::new();
-        let mut holders = Vec::new();
+        let mut waits: Vec<(usize, usize)> = Vec::new();
         for t in 0..n {
             if let TState::Parked(Point::Lock { list, .. }) = s.threads[t].state {
-                let act = s.threads[t].cur_act;
-                let label = act.map(|a| a.label()).unwrap_or_default();
+                let label = s.threads[t].cur_act.map(|a| a.label()).unwrap_or_default();
                 let held: Vec<&str> = s.threads[t].woken_locks.iter().map(|l| lname(s, *l)).collect();
-                blocked.push((t, label.clone(), format!("acquired {held:?} in this operation, waits for {}", lname(s, list))));
-                // a thread that waits while it keeps a shared lock is part of the cycle
-                // (only `==` keeps its first lock while it takes the second)
-                if matches!(act, Some(Act::Eq { .. })) && !s.threads[t].woken_locks.is_empty() {
-                    holders.push(label);
-                }
+                blocked.push((t, label, format!("acquired {held:?} in this operation, waits for {}", lname(s, list))));
+                waits.push((t, list));
             }
         }
+        // the signature names the operations in the cycle: the blocked threads that were
+        // let into a list which another blocked thread waits for
+        let mut holders: Vec<String> = blocked
+            .iter()
+            .filter(|(t, _, _)| waits.iter().any(|(u, l)| u != t && s.threads[*t].woken_locks.contains(l)))
+            .map(|b| b.1.clone())
+            .collect();
         if holders.is_empty() {
             holders = blocked.iter().map(|b| b.1.clone()).collect();
         }
@@ -1122,7 +1717,7 @@ fn wait_for(mut s: MutexGuard<'static, Sched>, deadline: Instant, cond: impl Fn(
     Ok(s)
 }
 
-fn run_schedule<E: SElem>(cfg: &Config, acts: &[Vec<Act>], fns: &Option<Arc<SFns<E>>>, prefix: &[u8], policy: Policy, full_points: bool) -> SchedOut {
+fn run_schedule<E: SElem>(cfg: &Config, acts: &[Vec<Act>], fns: &Option<Arc<SFns<E>>>, prefix: &[u8], policy: Policy, full_points: bool, order_ab: bool) -> SchedOut {
     let n = acts.len();
     // fresh lists
     let a: List<E> = (0..cfg.init_len).map(|i| E::mk(1 + i as u64)).collect();
@@ -1131,7 +1726,16 @@ fn run_schedule<E: SElem>(cfg: &Config, acts: &[Vec<Act>], fns: &Option<Arc<SFns
     LEARN.with(|l| *l.borrow_mut() = Some(Vec::new()));
     let _ = a.len();
     let _ = b.len();
-    let learned = LEARN.with(|l| l.borrow_mut().take()).unwrap_or_default();
+    let mut learned = LEARN.with(|l| l.borrow_mut().take()).unwrap_or_default();
+    // Pairs of lists are locked in address order, so the relative position of the two
+    // (equal) lists is part of the configuration: it is fixed per case, otherwise the
+    // replay of a schedule prefix would depend on the allocator.
+    let (a, b) = if learned.len() == 2 && (learned[0] < learned[1]) != order_ab {
+        learned.swap(0, 1);
+        (b, a)
+    } else {
+        (a, b)
+    };
     let mut out = SchedOut {
         steps: Vec::new(),
         outcome: Outcome::Complete,
@@ -1139,7 +1743,7 @@ fn run_schedule<E: SElem>(cfg: &Config, acts: &[Vec<Act>], fns: &Option<Arc<SFns
         finals: [Vec::new(), Vec::new()],
         events: 0,
         releases: 0,
-        hazards: Vec::new(),
+        elem_yields: 0,
         leaked: 0,
     };
     if learned.len() != 2 || learned[0] == learned[1] {
@@ -1173,9 +1777,9 @@ fn run_schedule<E: SElem>(cfg: &Config, acts: &[Vec<Act>], fns: &Option<Arc<SFns
         s.clock = 0;
         s.events = 0;
         s.releases = 0;
-        s.live.clear();
+        s.elem_yields = 0;
+        s.released.clear();
         s.stale = None;
-        s.hazards.clear();
         s.hist.clear();
         s.shared = [learned[0], learned[1]];
         s.full_points = full_points;
@@ -1236,7 +1840,7 @@ fn run_schedule<E: SElem>(cfg: &Config, acts: &[Vec<Act>], fns: &Option<Arc<SFns
     out.hist = s.hist.clone();
     out.events = s.events;
     out.releases = s.releases;
-    out.hazards = s.hazards.clone();
+    out.elem_yields = s.elem_yields;
     // every thread leaves: finished ones have left already, parked ones unwind or
     // (below JIT frames) are leaked
     s.abort = true;
@@ -1281,7 +1885,9 @@ fn model_apply(st: &mut Model, act: &Act) -> Res {
             st[obj].push(v);
             Res::Unit
         }
-        Act::Contains { obj, v } => Res::Bool(st[obj].contains(&v)),
+        Act::Contains { obj, v, .. } => Res::Bool(st[obj].contains(&v)),
+        Act::Index { obj, v } => Res::Opt(st[obj].iter().position(|x| *x == v).map(|i| i as u64)),
+        Act::ToVec { obj } => Res::Seq(st[obj].clone()),
         Act::Swap { obj, i, j } => {
             if i < st[obj].len() && j < st[obj].len() && SELFTEST.load(Ordering::Relaxed) != 2 {
                 st[obj].swap(i, j);
@@ -1370,6 +1976,8 @@ pub struct ListSched {
     full_points: bool,
     enum_only: bool,
     leak_cap: u64,
+    elems: Vec<ElemKind>,
+    fns_val: Option<Arc<SFns<Val<Yv>>>>,
 }
 
 fn programs(alpha: &[Op]) -> Vec<Vec<Op>> {
@@ -1419,10 +2027,32 @@ impl ListSched {
             vec![vec![Get0, Len], vec![PushA, Contains], vec![Swap01, GetLast]],
             vec![vec![Contains, Len], vec![PushA, PushA]],
             vec![vec![EqAB, EqAB], vec![PushA, PushB]],
+            // scans that another thread's push / swap must not be able to cut in two
+            vec![vec![ToVec], vec![PushA]],
+            vec![vec![ToVec], vec![PushA, PushA]],
+            vec![vec![ToVec], vec![Swap01]],
+            vec![vec![EqAB], vec![PushA]],
+            vec![vec![EqAB], vec![PushA, PushA]],
+            vec![vec![EqAB], vec![Swap01, Swap01]],
+            vec![vec![Contains], vec![Swap01]],
+            vec![vec![Contains], vec![PushA, PushA]],
+            vec![vec![SContains], vec![PushA, PushA]],
+            vec![vec![SIndex], vec![PushA, PushA]],
+            vec![vec![SIndex], vec![Swap01]],
+            vec![vec![SEqAB], vec![PushA, PushA]],
+            vec![vec![SConcatAB], vec![Swap01]],
+            vec![vec![ConcatAB], vec![PushA, PushA]],
+            vec![vec![ToVec, Len], vec![Swap01, PushA], vec![GetLast]],
         ];
+        // `--elems u64,String,Val` restricts the element types (default: all)
+        let elems: Vec<ElemKind> = match args.opt("elems") {
+            Some(l) => ELEM_KINDS.iter().copied().filter(|k| l.split(',').any(|x| x.eq_ignore_ascii_case(k.name()))).collect(),
+            None => ELEM_KINDS.to_vec(),
+        };
+        let elems = if elems.is_empty() { ELEM_KINDS.to_vec() } else { elems };
         let mut prelude = Vec::new();
         for sh in &shapes {
-            for elem in [ElemKind::U64, ElemKind::Str] {
+            for elem in elems.iter().copied() {
                 for init_len in INIT_LENS {
                     prelude.push(Config { elem, init_len, progs: sh.clone(), origin: "prelude" });
                 }
@@ -1446,15 +2076,21 @@ impl ListSched {
             rand_extra: num("rand-extra", if args.thorough() { 2_000 } else { 500 }),
             full_points: args.flag("full-points"),
             enum_only: args.flag("enum-only"),
+            elems,
+            fns_val: None,
             leak_cap: num("leak-cap", 4),
         }
     }
 
+    /// element type x initial length
+    fn n_variants(&self) -> u64 {
+        (self.elems.len() * INIT_LENS.len()) as u64
+    }
     fn n_enum_rust(&self) -> u64 {
-        self.pairs.len() as u64 * 6
+        self.pairs.len() as u64 * self.n_variants()
     }
     fn n_enum_script(&self) -> u64 {
-        (self.sprogs.len() * self.progs.len()) as u64 * 6
+        (self.sprogs.len() * self.progs.len()) as u64 * self.n_variants()
     }
     fn n_enum(&self) -> u64 {
         self.n_enum_rust() + self.n_enum_script()
@@ -1463,17 +2099,19 @@ impl ListSched {
     /// Enumerated configuration `e` (0 <= e < n_enum): all assignments of <= 2
     /// operations to 2 threads x element type x initial length.
     fn enum_config(&self, e: u64) -> Config {
+        let nv = self.n_variants();
         let (variant, progs, origin) = if e < self.n_enum_rust() {
-            let (p, q) = self.pairs[(e / 6) as usize];
-            (e % 6, vec![self.progs[p as usize].clone(), self.progs[q as usize].clone()], "enum-2x2")
+            let (p, q) = self.pairs[(e / nv) as usize];
+            (e % nv, vec![self.progs[p as usize].clone(), self.progs[q as usize].clone()], "enum-2x2")
         } else {
             let e = e - self.n_enum_rust();
-            let c = e / 6;
+            let c = e / nv;
             let sp = (c as usize) / self.progs.len();
             let rp = (c as usize) % self.progs.len();
-            (e % 6, vec![self.sprogs[sp].clone(), self.progs[rp].clone()], "enum-2x2-script")
+            (e % nv, vec![self.sprogs[sp].clone(), self.progs[rp].clone()], "enum-2x2-script")
         };
-        Config { elem: if variant % 2 == 0 { ElemKind::U64 } else { ElemKind::Str }, init_len: INIT_LENS[(variant / 2) as usize], progs, origin }
+        let ne = self.elems.len() as u64;
+        Config { elem: self.elems[(variant % ne) as usize], init_len: INIT_LENS[(variant / ne) as usize], progs, origin }
     }
 
     fn random_config(&self, rng: &mut Rng) -> Config {
@@ -1484,7 +2122,7 @@ impl ListSched {
         };
         let script = rng.chance(1, 4);
         // weights of the Rust alphabet: favour operations with scheduling points
-        let w: [u32; 13] = [4, 4, 6, 3, 3, 3, 2, 3, 1, 1, 2, 2, 2];
+        let w: [u32; 14] = [4, 4, 6, 3, 3, 3, 2, 3, 1, 1, 2, 2, 2, 2];
         let mut progs = Vec::new();
         for t in 0..threads {
             let len = if rng.chance(3, 4) { max_ops } else { 1 + rng.usize(max_ops) };
@@ -1498,7 +2136,7 @@ impl ListSched {
             }
             progs.push(p);
         }
-        Config { elem: if rng.bool() { ElemKind::U64 } else { ElemKind::Str }, init_len: *rng.pick(&INIT_LENS), progs, origin }
+        Config { elem: *rng.pick(&self.elems), init_len: *rng.pick(&INIT_LENS), progs, origin }
     }
 
     /// Case layout: [0, P) hand-picked minimal configurations; then blocks of four
@@ -1528,7 +2166,7 @@ impl ListSched {
 
     fn fns<E: SElem>(rt: &mut Option<Runtime<NoCtx>>, slot: &mut Option<Arc<SFns<E>>>) -> Result<Arc<SFns<E>>, String> {
         if slot.is_none() {
-            let rt = rt.get_or_insert_with(crate::host::runtime);
+            let rt = rt.get_or_insert_with(sched_runtime);
             *slot = Some(Arc::new(SFns::<E>::compile(rt)?));
         }
         Ok(slot.clone().unwrap())
@@ -1545,7 +2183,7 @@ fn steps_text(steps: &[Step], acts: &[Vec<Act>]) -> Vec<J> {
                 0 => "lock(a)",
                 1 => "lock(b)",
                 2 => "lock(private)",
-                _ => "use-escaped-pointer",
+                _ => "element-callback",
             };
             J::from(format!("T{t} [{act}] proceeds at {pt}; enabled={:#05b}", s.mask))
         })
@@ -1570,7 +2208,7 @@ struct Stats {
     deadlocks: u64,
     stale: u64,
     nonlin: u64,
-    hazards: u64,
+    elem_yields: u64,
     events: u64,
     releases: u64,
     leaked: u64,
@@ -1590,7 +2228,7 @@ impl ListSched {
             deadlocks: 0,
             stale: 0,
             nonlin: 0,
-            hazards: 0,
+            elem_yields: 0,
             events: 0,
             releases: 0,
             leaked: 0,
@@ -1598,6 +2236,9 @@ impl ListSched {
             seen_choice: HashSet::new(),
         };
         let mut reported: HashSet<String> = HashSet::new();
+        let order_ab = hash_str(&cfg.key()) & 1 == 0;
+        let trials_before = lock_sched().trials;
+        out.tags.push(format!("lock-order:{}", if order_ab { "a<b" } else { "b<a" }));
         let mut first_schedule: Option<String> = None;
         let mut exhaustive = false;
         let mut stopped: Option<&'static str> = None;
@@ -1608,11 +2249,12 @@ impl ListSched {
         let process_leak_budget = 1500u64;
         loop {
             let policy = if random_phase { Policy::Random(Rng::new(sched_rng.next())) } else { Policy::Lowest };
-            let r = run_schedule::<E>(cfg, &acts, &fns, if random_phase { &[] } else { &prefix }, policy, self.full_points);
+            let r = run_schedule::<E>(cfg, &acts, &fns, if random_phase { &[] } else { &prefix }, policy, self.full_points, order_ab);
             st.schedules += 1;
             st.steps += r.steps.len() as u64;
             st.events += r.events;
             st.releases += r.releases;
+            st.elem_yields += r.elem_yields;
             st.leaked += r.leaked;
             for s in &r.steps {
                 let e = s.mask.count_ones();
@@ -1633,14 +2275,6 @@ impl ListSched {
                     .set("steps", J::Arr(steps_text(&r.steps, &acts)))
                     .set("history", hist_json(&r.hist))
             };
-            if !r.hazards.is_empty() {
-                st.hazards += r.hazards.len() as u64;
-                let h = &r.hazards[0];
-                let tag = format!("hazard:unlocked-read:{}-vs-{}@{}", h.read.label(), h.write.label(), cfg.elem.name());
-                if !out.tags.contains(&tag) {
-                    out.tags.push(tag);
-                }
-            }
             match &r.outcome {
                 Outcome::Complete => {
                     // final observation joins the history
@@ -1720,20 +2354,32 @@ impl ListSched {
                 }
                 Outcome::Stale(sp) => {
                     st.stale += 1;
-                    let rel = sp.rel.map(|a| a.label()).unwrap_or_else(|| "drop".into());
+                    let rel = match &sp.rel {
+                        Some(r) => r.act.map(|a| a.label()).unwrap_or_else(|| "drop".into()),
+                        None => "garbage".into(),
+                    };
                     let sig = format!("stale-pointer:{}-vs-{}@{}", sp.esc.label(), rel, cfg.elem.name());
                     if reported.insert(sig.clone()) {
+                        let why = match (&sp.rel, sp.garbage) {
+                            (Some(r), _) => format!(
+                                "the address lies in the buffer [{:#x}, +{}) that T{} [{}] released (freed or moved) at clock {} and that no list has owned since",
+                                r.addr,
+                                r.bytes,
+                                r.thread,
+                                r.act.map(|a| a.show()).unwrap_or_default(),
+                                r.clock
+                            ),
+                            (None, Some((id, canary))) => format!("the bytes there are not a live element (id {id:#x}, canary {canary:#x})"),
+                            _ => String::new(),
+                        };
                         out.viol(
                             sig,
                             format!(
-                                "T{} [{}] holds an element pointer {:#x} that escaped its critical section; T{} [{}] released the buffer [{:#x}, +{}) before the pointer was used; config {} (elem {}, init len {})",
+                                "T{} [{}] was about to read an element at {:#x} (element `{}`): {why}; config {} (elem {}, init len {})",
                                 sp.esc_thread,
                                 sp.esc.show(),
                                 sp.addr,
-                                sp.rel_thread,
-                                sp.rel.map(|a| a.show()).unwrap_or_default(),
-                                sp.buf,
-                                sp.bytes,
+                                sp.what,
                                 cfg.text(),
                                 cfg.elem.name(),
                                 cfg.init_len
@@ -1817,7 +2463,8 @@ impl ListSched {
         out.count("stale-pointer-hits", st.stale);
         out.count("not-linearizable", st.nonlin);
         out.count("buffer-releases", st.releases);
-        out.count("hazard-unlocked-read-vs-swap", st.hazards);
+        out.count("elem-yields", st.elem_yields);
+        out.count("lock-trials", lock_sched().trials - trials_before);
         out.count("leaked-threads", st.leaked);
         out.count("exhaustive", exhaustive as u64);
         if let Some(s) = stopped {
@@ -1846,12 +2493,13 @@ impl ListSched {
 impl Family for ListSched {
     fn n_cases(&self, args: &Args) -> u64 {
         // the whole 2 x <=2 enumeration is covered by prelude + ceil(4/3 * n_enum) cases
-        // (`--cases 162440`); the defaults are prefixes of the same strided order
+        // (the `hello` line of `--enum-only 1` says how many that is); the defaults are
+        // prefixes of the same strided order
         // (or, with `--enum-only 1`, by prelude + n_enum cases)
         if self.enum_only {
             return self.prelude.len() as u64 + self.n_enum();
         }
-        if args.thorough() { self.prelude.len() as u64 + 16_000 } else { self.prelude.len() as u64 + 4_000 }
+        (if args.thorough() { 16_096 } else { 4_096 }).max(self.prelude.len() as u64)
     }
 
     fn run(&mut self, k: u64, rng: &mut Rng, _args: &Args) -> CaseOut {
@@ -1870,6 +2518,15 @@ impl Family for ListSched {
         out.tags.push(format!("init-len:{}", cfg.init_len));
         out.tags.push(format!("origin:{}", cfg.origin));
         let script = cfg.uses_script();
+        if script && CAL_FNS.lock().unwrap_or_else(|e| e.into_inner()).is_none() {
+            match Self::fns::<Val<Yv>>(&mut self.rt, &mut self.fns_val) {
+                Ok(f) => *CAL_FNS.lock().unwrap_or_else(|e| e.into_inner()) = Some(f),
+                Err(e) => {
+                    out.skipped = Some(format!("script functions rejected: {e}"));
+                    return out;
+                }
+            }
+        }
         match cfg.elem {
             ElemKind::U64 => {
                 let fns = if script {
@@ -1898,6 +2555,20 @@ impl Family for ListSched {
                     None
                 };
                 self.run_case::<RotoString>(&cfg, fns, rng, &mut out);
+            }
+            ElemKind::Val => {
+                let fns = if script {
+                    match Self::fns::<Val<Yv>>(&mut self.rt, &mut self.fns_val) {
+                        Ok(f) => Some(f),
+                        Err(e) => {
+                            out.skipped = Some(format!("script functions rejected: {e}"));
+                            return out;
+                        }
+                    }
+                } else {
+                    None
+                };
+                self.run_case::<Val<Yv>>(&cfg, fns, rng, &mut out);
             }
         }
         out
